@@ -313,11 +313,44 @@ func configureEngine() {
 	}
 }
 
+// engineConfigD merges harness/engine.d/*.json:
+// {"redirect":{"callee":"metacontroller/pkg/zzverif/models.Fn"},"init_allow_exact":["pkg"],"benign_globals":["pkg.Var"],"init_deny":["prefix"]}
+func engineConfigD() {
+	files, _ := filepath.Glob(filepath.Join(verifDir, "harness", "engine.d", "*.json"))
+	sort.Strings(files)
+	for _, f := range files {
+		b, err := os.ReadFile(f)
+		if err != nil {
+			fatal("%v", err)
+		}
+		var c struct {
+			Redirect       map[string]string `json:"redirect"`
+			InitAllowExact []string          `json:"init_allow_exact"`
+			BenignGlobals  []string          `json:"benign_globals"`
+			InitDeny       []string          `json:"init_deny"`
+		}
+		if err := json.Unmarshal(b, &c); err != nil {
+			fatal("%s: %v", f, err)
+		}
+		for k, v := range c.Redirect {
+			interp.Redirect[k] = v
+		}
+		for _, k := range c.InitAllowExact {
+			interp.InitAllowExact[k] = true
+		}
+		for _, k := range c.BenignGlobals {
+			interp.BenignGlobals[k] = true
+		}
+		interp.InitDeny = append(interp.InitDeny, c.InitDeny...)
+	}
+}
+
 func main() {
 	if len(os.Args) < 2 {
 		fatal("usage: vcheck run <property> [--tier quick|thorough] | replay <file> | list")
 	}
 	configureEngine()
+	engineConfigD()
 	switch os.Args[1] {
 	case "run":
 		os.Exit(cmdRun(os.Args[2:]))
